@@ -542,13 +542,11 @@ def _guess_zero_pattern(omod, fam):
     return {i for i in range(6) if S(out[i]) == 0}
 
 
-def _d_start_symmetry(chk):
-    """Mirror theorem, both ends: the corrected orbit closes after 2*tau only if the start state lies (and stays, under the
-    corrections applied to the control components) in the fixed set of the SAME reversing symmetry whose fixed set the
-    event + residual make it hit perpendicularly at tau; if the two fixed sets belong to different symmetries the orbit is
-    doubly symmetric and closes after 4*tau; if the controls move the start state off every fixed set it does not close at all."""
+def family_symmetries(chk=None):
+    """For every orbit family with an analytic start state and a default correction configuration: (family, correction service
+    class, zero components of the start state, control indices, residual indices, event coordinate, reversing symmetries whose
+    fixed set contains the start state and whose free coordinates contain the controls, symmetries of the arrival conditions)."""
     omod = ri.need_module(OS)
-    n = 0
     for cls in omod.tree.body:
         if not (isinstance(cls, ast.ClassDef) and cls.name.endswith("OrbitCorrectionService") and cls.name != "_OrbitCorrectionService"):
             continue
@@ -566,9 +564,9 @@ def _d_start_symmetry(chk):
             continue
         Z0 = _guess_zero_pattern(omod, fam)
         if Z0 is None:
-            chk.note(f"{cls.name}: no analytic initial guess to read the start symmetry from")
+            if chk is not None:
+                chk.note(f"{cls.name}: no analytic initial guess to read the start symmetry from")
             continue
-        n += 1
         ev = cap.get("event_func")
         coord = {"x": 0, "y": 1, "z": 2}.get(ev[1]) if isinstance(ev, tuple) and ev[0] == "plane" else None
         res = {int(S(i)) for i in cap.get("residual_indices", ())}
@@ -576,16 +574,29 @@ def _d_start_symmetry(chk):
         Z1 = res | ({coord} if coord is not None else set())
         start = [nm for nm, (zs, free) in SYMMETRIES.items() if zs <= Z0 and ctl <= free]
         arrive = [nm for nm, (zs, free) in SYMMETRIES.items() if zs == Z1 or (zs <= Z1 and Z1 - zs <= Z0)]
+        yield fam, cls, Z0, ctl, res, coord, start, arrive
+
+
+def _d_start_symmetry(chk):
+    """Mirror theorem, both ends: the corrected orbit closes after 2*tau only if the start state lies (and stays, under the
+    corrections applied to the control components) in the fixed set of the SAME reversing symmetry whose fixed set the
+    event + residual make it hit perpendicularly at tau; if the two fixed sets belong to different symmetries the orbit is
+    doubly symmetric and closes after 4*tau; if the controls move the start state off every fixed set it does not close at all."""
+    omod = ri.need_module(OS)
+    n = 0
+    for fam, cls, Z0, ctl, res, coord, start, arrive in family_symmetries(chk):
+        n += 1
+        Z1 = res | ({coord} if coord is not None else set())
         names = {0: "x", 1: "y", 2: "z", 3: "vx", 4: "vy", 5: "vz"}
         chk.check(bool(start), "C05.d", f"{OS}::{cls.name}._default_correction_config[start symmetry]",
                   f"{fam}: the analytic start state has zero components {sorted(names[i] for i in Z0)} but the controls {sorted(names[i] for i in ctl)} are not free coordinates of a "
                   f"reversing symmetry whose fixed set contains it (S1 free x,z,vy; S2 free x,vy,vz): the corrector moves the start state off the symmetry set, so a perpendicular "
                   f"arrival at {sorted(names[i] for i in Z1)} = 0 does not close the orbit", sample=f"{fam}: start in Fix({start}), controls {sorted(names[i] for i in ctl)} stay inside")
         # period multiplier applied by this family's service
-        dyn = SymObj(None, {"reset": lambda: None, "_initial_state": None, "period": None}, "dynamics")
+        dyn, _resets, xf = _dyn_model()
         hp = sp.Symbol("HALF", positive=True)
         svc2 = SymObj(ClassRef(omod, cls), {"domain_obj": SymObj(None, {"dynamics": dyn}, "orbit")}, "svc")
-        payload = SymObj(None, {"x_full": to_obj_array([sp.Symbol(f"xf{i}") for i in range(6)]), "half_period": hp}, "payload")
+        payload = SymObj(None, {"x_full": xf, "half_period": hp}, "payload")
         Interp().apply(Interp().getattr(svc2, "apply_correction"), [payload], {})
         mult = sp.simplify(S(dyn.attrs["period"]) / hp)
         same = bool(set(start) & set(arrive)) if start else bool(arrive)
@@ -596,18 +607,32 @@ def _d_start_symmetry(chk):
     chk.floor("families with an analytic start state examined", n, 3)
 
 
+def _dyn_model():
+    """An orbit's dynamics service as the correction service sees it: it already holds a state (the uncorrected one, 1e-9 away
+    from the corrected one in one component: what a re-correction at a tighter tolerance produces), a period and cached results."""
+    R = sp.Rational
+    old = to_obj_array([R(4, 5), R(0), R(1, 10), R(0), R(1, 5), R(0)])
+    xf = old.copy()
+    xf[4] = R(1, 5) + R(1, 10 ** 9)
+    resets = []
+    dyn = SymObj(None, {"reset": lambda *a: resets.append(1), "_initial_state": old, "initial_state": old, "period": R(3), "_period": R(3)}, "dynamics")
+    return dyn, resets, xf
+
+
 def _d_period(chk):
     omod, ocls = ri.find_def(OS, "_OrbitCorrectionService")
-    dyn = SymObj(None, {"reset": lambda: None, "_initial_state": None, "period": None}, "dynamics")
+    dyn, resets, xf = _dyn_model()
     dom = SymObj(None, {"dynamics": dyn}, "orbit")
     svc = SymObj(ClassRef(omod, ocls), {"domain_obj": dom}, "svc")
     hp = sp.Symbol("HALF", positive=True)
-    payload = SymObj(None, {"x_full": to_obj_array([sp.Symbol(f"xf{i}") for i in range(6)]), "half_period": hp}, "payload")
+    payload = SymObj(None, {"x_full": xf, "half_period": hp}, "payload")
     ip = Interp()
     ip.apply(ip.getattr(svc, "apply_correction"), [payload], {})
-    chk.check(sp.simplify(S(dyn.attrs["period"]) - 2 * hp) == 0 and list(to_obj_array(dyn.attrs["_initial_state"])) == list(payload.attrs["x_full"]), "C05.d",
-              f"{OS}::_OrbitCorrectionService.apply_correction", f"after correction period={dyn.attrs['period']} (expected 2*half_period) / state not the corrected one",
-              sample="period = 2*half_period; initial_state = x_full")
+    st = dyn.attrs.get("_initial_state")
+    chk.check(sp.simplify(S(dyn.attrs["period"]) - 2 * hp) == 0 and st is not None and [S(v) for v in to_obj_array(st)] == [S(v) for v in xf] and bool(resets), "C05.d",
+              f"{OS}::_OrbitCorrectionService.apply_correction", f"after a correction that moved the state by 1e-9: period={dyn.attrs['period']} (expected 2*half_period), "
+              f"state={list(to_obj_array(st)) if st is not None else None} (expected the corrected one), cached results dropped: {bool(resets)}",
+              sample="period = 2*half_period; initial_state = x_full (1e-9 from the old state); reset() called")
     # correct(): returned period is 2*half_period of the same result
     res = SymObj(None, {"x_corrected": sp.Symbol("XC"), "half_period": hp, "iterations": 3, "residual_norm": sp.Symbol("RN")}, "result")
     applied = []
